@@ -85,6 +85,9 @@ MUTANTS = [
     ('C20', 'own-paux-by-basename', 'plasTeX/Compile.py',
      """            if os.path.abspath(fname) == ownpaux:""",
      """            if os.path.basename(fname) == pauxname:"""),
+    ('C04', 'text-command-not-a-box', 'plasTeX/Base/LaTeX/Math.py',
+     """class text(BoxCommand):""",
+     """class text(Command):"""),
     # ---------------- C06
     ('C06', 'insertAfter-off-by-one', 'plasTeX/DOM/__init__.py',
      """            if item is refChild:
